@@ -290,6 +290,27 @@ impl<T: Qcow2IoOps> Qcow2Dev<T> {
             }
         }
 
+        // These mapping slices are read locked, so no mapping can be added
+        // to them until they are written out, and every cluster they refer
+        // to has been allocated already. Someone may have allocated such a
+        // cluster after the last refcount flush, so make the refcounts
+        // durable now: one mapping must never reach disk before the
+        // refcount of its cluster
+        if B::is_mapping_table() && !cache_vec.is_empty() && self.refcount_is_dirty().await {
+            let res: Qcow2Result<()> = Box::pin(async {
+                self.flush_refcount().await?;
+                self.call_fsync(0, usize::MAX, 0).await
+            })
+            .await;
+            if res.is_err() {
+                for (_, e) in tv {
+                    e.set_dirty(true);
+                }
+                self.mark_need_flush(true);
+                return res;
+            }
+        }
+
         let mut f_vec = Vec::new();
         for cache in cache_vec.iter() {
             log::trace!(
@@ -457,6 +478,22 @@ impl<T: Qcow2IoOps> Qcow2Dev<T> {
     }
 
     //// flush refcount table and block dirty data to disk
+    /// if any refcount block slice or refcount table block waits for flush
+    async fn refcount_is_dirty(&self) -> bool {
+        if !self.refblock_cache.get_dirty_entries(0, usize::MAX).is_empty() {
+            return true;
+        }
+
+        let rt = self.reftable.read().await;
+        match rt.pop_dirty_blk_idx(None) {
+            Some(idx) => {
+                rt.set_dirty(((idx << self.info.block_size_shift) >> 3) as usize);
+                true
+            }
+            None => false,
+        }
+    }
+
     pub(crate) async fn flush_refcount(&self) -> Qcow2Result<()> {
         loop {
             let rt = &*self.reftable.read().await;
